@@ -683,8 +683,13 @@ def recvDHCommitNone (K : Crypto) (msg : Bytes) : M (AuthState √ó Option Bytes √
 
 def recvDHCommit (K : Crypto) (s : AuthState) (msg : Bytes) : M (AuthState √ó Option Bytes √ó Option Err) := do
   match s with
-  | .none | .awaitingSig _ => recvDHCommitNone K msg
+  | .none => recvDHCommitNone K msg
+  | .awaitingSig _ =>
+    -- repaired code: an unparsable DH-Commit must not disturb the exchange in progress
+    if (DhCommit.deserialize msg).isNone then return (s, none, some (.other "corrupt DH commit message"))
+    else recvDHCommitNone K msg
   | .awaitingRevealSig => akeTry s do
+    if (DhCommit.deserialize msg).isNone then throw (.other "corrupt DH commit message")
     modAke fun a => { a with keys := a.keys.wipeAndKeepRevealKeys, xhashedGx := [], encryptedGx := [] }
     processDHCommit msg
     let m ‚Üê wrapMessageHeader msgTypeDHKey (‚Üê serializeDHKey)
